@@ -367,8 +367,21 @@ def _strip_doc(body: List[ast.stmt]) -> List[ast.stmt]:
     return body
 
 
-def inline_fresh_helpers(tree: ast.Module, ref_mod: dict) -> None:
+def inline_fresh_helpers(tree: ast.Module, ref_mod: dict, protect_renames: bool = False) -> None:
     ref_funcs = set(ref_mod.get("funcs", {}))
+    # fresh methods that may be renamed reference methods (same parameter list as a reference method the class has lost) are left
+    # alone on the first sweep: once the helpers *they* use are inlined, the rename pass can recognise them by their bodies
+    protected = set()
+    if protect_renames:
+        for c_ in [n for n in tree.body if isinstance(n, ast.ClassDef)]:
+            cur_m = {n.name: n for n in c_.body if isinstance(n, ast.FunctionDef)}
+            lost = [q.split(".", 1)[1] for q in ref_funcs if q.startswith(c_.name + ".") and q.count(".") == 1 and q.split(".", 1)[1] not in cur_m]
+            for nm_, node_ in cur_m.items():
+                if f"{c_.name}.{nm_}" in ref_funcs:
+                    continue
+                pl = [a.arg for a in node_.args.posonlyargs + node_.args.args + node_.args.kwonlyargs]
+                if any(len(ref_mod["funcs"].get(f"{c_.name}.{l_}", {}).get("params", [])) == len(pl) for l_ in lost):
+                    protected.add((c_.name, nm_))
     for _round in range(4):
         changed = False
         # collect candidates: qualname -> (FunctionDef, owner container (Module/ClassDef), kind)
@@ -396,6 +409,8 @@ def inline_fresh_helpers(tree: ast.Module, ref_mod: dict) -> None:
                                 changed = True
         for (cname, hname), (h, owner, kind) in list(cands.items()):
             if hname.startswith("__") and hname.endswith("__"):
+                continue
+            if (cname, hname) in protected:
                 continue
             ps = _params(h)
             if ps is None:
@@ -1625,6 +1640,50 @@ def rename_fresh_members(tree: ast.Module, ref_mod: dict) -> None:
             if mapping.get(fresh_m[0], miss_m[0]) != miss_m[0]:
                 return
             mapping[fresh_m[0]] = miss_m[0]
+        elif miss_m and fresh_m:
+            # several private methods gone and several new ones: pair those whose parameter lists agree and whose bodies are
+            # alike (line similarity of the source with the method names blanked), each side used at most once
+            import difflib as _dl
+
+            def body_lines(src_text):
+                try:
+                    t_ = ast.parse(src_text)
+                except SyntaxError:
+                    return []
+                f_ = t_.body[0]
+                return [l.strip() for st_ in f_.body for l in _u(st_).splitlines()]
+            cand = []
+            for m_ in miss_m:
+                rf_ = ref_mod["funcs"].get(f"{c.name}.{m_}", {})
+                for f_ in fresh_m:
+                    node_ = next(n for n in c.body if isinstance(n, ast.FunctionDef) and n.name == f_)
+                    cur_ps = [a.arg for a in node_.args.posonlyargs + node_.args.args + node_.args.kwonlyargs]
+                    if len(cur_ps) != len(rf_.get("params", [])):
+                        continue
+                    # compare with the parameters called as in the reference (a renamed parameter is not a difference)
+                    node2_ = copy.deepcopy(node_)
+                    pmap_ = dict(zip(cur_ps, rf_.get("params", [])))
+                    for x_ in ast.walk(node2_):
+                        if isinstance(x_, ast.Name) and x_.id in pmap_:
+                            x_.id = pmap_[x_.id]
+                    ratio = _dl.SequenceMatcher(None, body_lines(rf_.get("src", "")), [l.strip() for st_ in node2_.body for l in _u(st_).splitlines()
+                                                                                             if not (isinstance(st_, ast.Expr) and isinstance(st_.value, ast.Constant))], autojunk=False).ratio()
+                    # the names themselves are evidence too (`_get_by_index` for `__getitem_by_index`)
+                    name_ratio = _dl.SequenceMatcher(None, m_.strip("_"), f_.strip("_")).ratio()
+                    cand.append((max(ratio, 0.9 * name_ratio if name_ratio >= 0.6 else 0.0), m_, f_))
+            cand.sort(reverse=True)
+            used_m, used_f = set(), set()
+            for ratio, m_, f_ in cand:
+                if ratio < 0.4 or m_ in used_m or f_ in used_f:
+                    continue
+                rivals = [r for r, m2, f2 in cand if (m2 == m_) != (f2 == f_) and r >= ratio - 0.15 and (m2 == m_ or f2 == f_)]
+                if rivals:
+                    continue
+                if mapping.get(f_, m_) != m_:
+                    return
+                mapping[f_] = m_
+                used_m.add(m_)
+                used_f.add(f_)
     # module-level private functions
     cur_f = {n.name for n in tree.body if isinstance(n, ast.FunctionDef)}
     ref_f = {q for q in ref_funcs if "." not in q}
